@@ -125,10 +125,11 @@ class RealCluster:
             if not self.up[i]:
                 return
             supv, rec = self.supv[i], self.rec[i]
-            self.cnt[i] += 1
             rec.orcs, rec.k, rec.first[0] = orcs, 0, True
             svenv.CLOCK.now = now
+            # like SupervisorListener.on_tick: the payload carries the current counter, then it is incremented
             p = {'when': now + 1e6, 'when_monotonic': now, 'sequence_counter': self.cnt[i]}
+            self.cnt[i] += 1
             supv.context.on_local_tick_event(p)
             supv.fsm.on_timer_event(p)
             self.flush(i)
